@@ -1,5 +1,6 @@
 """C09 -- Circuit transformations preserve the implemented operation."""
 import itertools
+import math
 from fractions import Fraction
 
 from tverif.engine import contract, snapshot
@@ -743,6 +744,95 @@ def p2(h, st):
                 h.check("dropped rotation is within thr of a multiple of its true period", abs(delta) < thr)
             else:
                 h.check("dropped rotation is within thr of a multiple of its true period", (abs(delta - 2 * h.pi) < thr) | (abs(delta + 2 * h.pi) < thr))
+    h.done()
+
+
+# ---------------------------------------------------------------------------------------------------------------------
+# O12  read-only operations along a HISTORY on one circuit object: the result never depends on what was called before
+
+RO_OPS = ["entangled", "split", "trim_trivial", "depth", "copy", "inverse", "simplify_fn", "mul", "add", "split_no_trim", "trim_trivial_qubits_op"]
+RO_SPECS = [
+    [("X", [0], None, ""), ("RZ", [1], None, 0.7), ("H", [2], None, ""), ("CNOT", [3], [2], ""), ("RX", [4], None, math.pi if False else 3.141592653589793)],
+    [("H", [0], None, ""), ("CNOT", [1], [0], ""), ("X", [3], None, ""), ("Z", [3], None, ""), ("RY", [2], None, 0.4)],
+    [("RX", [1], None, 3.141592653589793), ("Z", [0], None, ""), ("CRZ", [3], [2], 0.9), ("X", [2], None, "")],
+]
+
+
+def _canon(x):
+    """comparable form of whatever a read-only circuit operation returns"""
+    from tangelo.linq import Circuit, Gate
+    if isinstance(x, Circuit):
+        return ("circuit", [(g.name, tuple(g.target), tuple(g.control) if g.control else None, g.parameter if isinstance(g.parameter, str) else round(float(g.parameter), 12), g.is_variational) for g in x._gates], x.width)
+    if isinstance(x, (set, frozenset)):
+        return ("set", sorted(x))
+    if isinstance(x, dict):
+        return ("dict", sorted((repr(k), _canon(v)) for k, v in x.items()))
+    if isinstance(x, (list, tuple)):
+        return (type(x).__name__, [_canon(e) for e in x])
+    if hasattr(x, "terms"):
+        return ("operator", sorted((repr(k), complex(v)) for k, v in x.terms.items()))
+    return x
+
+
+def o12_structures(tier):
+    import itertools as it
+    seqs = [list(s) for s in it.product(RO_OPS, repeat=2)]
+    step = 3 if tier == "quick" else 1
+    return [{"spec": k, "ops": seq + [last]} for k in range(len(RO_SPECS)) for i, seq in enumerate(seqs) if i % step == k % step for last in ("split", "trim_trivial", "entangled")][:: 2 if tier == "quick" else 1]
+
+
+@contract("C09", "O12.readonly_histories", level="B", structures=o12_structures, native_samples=lambda st, rnd, tier: [{}],
+          targets=[(C, "Circuit.get_entangled_indices"), (C, "Circuit.split"), (C, "Circuit.depth"), (C, "Circuit.copy"), (C, "Circuit.inverse"), (C, "simplify"),
+                   ("tangelo/toolboxes/operators/trim_trivial_qubits.py", "trim_trivial_circuit"), ("tangelo/toolboxes/operators/trim_trivial_qubits.py", "trim_trivial_qubits")])
+def o12(h, st):
+    """bounded: along every history of read-only operations on ONE circuit object (entangled index sets, split with / without trimming, trim_trivial_circuit /
+    trim_trivial_qubits from the operator toolbox, depth, copy, inverse, the out-of-place simplify, *, +) each result equals the result of the same operation on a FRESH
+    circuit built from the same gates, and the circuit's observable state is unchanged at the end: nothing an operation leaves behind (in the circuit or in what it
+    returned to the caller) influences a later one"""
+    from tangelo.linq import Circuit
+    from tangelo.toolboxes.operators import QubitOperator
+    TT = "tangelo/toolboxes/operators/trim_trivial_qubits.py"
+    spec = RO_SPECS[st["spec"]]
+    mk = lambda: Circuit([mk_gate(*g) for g in spec])
+    c = mk()
+    before = snapshot(c.__dict__)
+
+    def run(op, circ):
+        if op == "entangled":
+            r = h.call(C, "Circuit.get_entangled_indices", circ)
+            out = _canon(sorted([sorted(x) for x in r]))
+            # a caller may consume what it was handed (the toolbox does): that must not reach the circuit
+            for x in r:
+                if x:
+                    x.pop()
+            return out
+        if op == "split":
+            return _canon(h.call(C, "Circuit.split", circ))
+        if op == "split_no_trim":
+            return _canon(h.call(C, "Circuit.split", circ, False))
+        if op == "trim_trivial":
+            return _canon(h.call(TT, "trim_trivial_circuit", circ))
+        if op == "trim_trivial_qubits_op":
+            q = QubitOperator(((0, "Z"), (3, "Z")), 0.5) + QubitOperator(((1, "X"),), 0.25)
+            return _canon(h.call(TT, "trim_trivial_qubits", q, circ))
+        if op == "depth":
+            return h.call(C, "Circuit.depth", circ)
+        if op == "copy":
+            return _canon(h.call(C, "Circuit.copy", circ))
+        if op == "inverse":
+            return _canon(h.call(C, "Circuit.inverse", circ))
+        if op == "simplify_fn":
+            return _canon(h.call(C, "simplify", circ))
+        if op == "mul":
+            return _canon(h.call(C, "Circuit.__mul__", circ, 2))
+        if op == "add":
+            return _canon(h.call(C, "Circuit.__add__", circ, Circuit([mk_gate("H", 0)])))
+        raise ValueError(op)
+    for k, op in enumerate(st["ops"]):
+        got = run(op, c)
+        want = run(op, mk())
+        h.check(f"step {k} ({op}) after {st['ops'][:k]}: same result as on a fresh circuit", got == want, detail=f"{str(got)[:150]} vs {str(want)[:150]}")
+    h.check("observable state of the circuit unchanged by the history", snapshot(c.__dict__) == before)
     h.done()
 
 
